@@ -137,6 +137,8 @@ var extraKeywords = []string{"unknownKeyword", "custom", "$comment", "contentMed
 var extNames = []string{"x-a", "x-vendor", "x-go-name", "x-nullable", "x-UPPER", "x-", "x-with space", "x-ünï", "x-a\"q", "x-order2"}
 var refPool = []string{"#/definitions/a", "#/definitions/b", "other.json#/definitions/c", "sub/other.json", "http://example.com/s.json#/definitions/d",
 	"#/parameters/p", "#/responses/r", "#/definitions/a~1b", "#/definitions/a%20b", "../up.json#/x",
+	// a control character and a blank, in the form net/url prints them (raw ones are C13's subject)
+	"#/definitions/bell%07x", "models/tree%20node.json#/definitions/a%20b",
 	// characters that net/url leaves alone in a query but that JSON must escape
 	"defs.json?root=C:\\new\\table#/definitions/Pet", "defs.json?label=\",\"readOnly\":true,\"title\":\"x", "defs.json?dir=a\\u0062c#/x"}
 var schemaURLs = []string{"http://json-schema.org/draft-04/schema#", "http://json-schema.org/draft-04/schema", "http://swagger.io/v2/schema.json#"}
